@@ -322,7 +322,8 @@ Lemma count_solutions_spec n memo0 vs cntv sh memoF : 0 <= n -> valid memo0 ->
   count_solutions fb eb n memo0 vs = ROk (cntv, sh, memoF) ->
   let combs := map (fun l : list nat => Z.of_nat (length l)) vs in
   sh_cross sh = Ncount n /\ sh_combs sh = combs /\ valid memoF /\ 0 <= Ncount n /\
-  (plain = true -> (Z.to_nat n <= qn)%nat) /\ Forall (fun x => 0 <= x) (sh_inds sh) /\
+  (plain = true -> (Z.to_nat n <= qn)%nat) /\
+  sh_inds sh = map (fun f : nat => Z.of_nat (length (nonexcluded_levels fb f)) ^ n) (uncrossed_basic_independent fb (eb_mf eb)) /\
   exists count1, count1_ok n combs count1 /\ cntv = count1 * prodZl (sh_inds sh).
 Proof.
   intros Hn Hval Hrun combs. unfold count_solutions in Hrun. fold plain in Hrun. fold combs in Hrun.
@@ -355,13 +356,13 @@ Proof.
   (* the source shapes *)
   destruct (full n) eqn:Hfull.
   - cbn [rbind] in Hrun. injection Hrun as <- <- <-. cbn [sh_cross sh_combs sh_inds].
-    split; [reflexivity|]. split; [reflexivity|]. split; [exact Hval1|]. split; [exact HN|]. split; [exact Hple|]. split; [apply inds_nonneg; exact Hn|].
+    split; [reflexivity|]. split; [reflexivity|]. split; [exact Hval1|]. split; [exact HN|]. split; [exact Hple|]. split; [reflexivity|].
     eexists. split; [left; split; [exact Hfull | reflexivity] | reflexivity].
   - unfold sum_combination_products in Hrun.
     destruct (all_equal_Z combs && match mc with Uniform _ => true | Counters cs0 => all_equal_Z cs0 end) eqn:Eq.
     + destruct (zindex combs 0) as [s0|e] eqn:Ez; [|discriminate]. cbn [rbind] in Hrun.
       injection Hrun as <- <- <-. cbn [sh_cross sh_combs sh_inds].
-      split; [reflexivity|]. split; [reflexivity|]. split; [exact Hval1|]. split; [exact HN|]. split; [exact Hple|]. split; [apply inds_nonneg; exact Hn|].
+      split; [reflexivity|]. split; [reflexivity|]. split; [exact Hval1|]. split; [exact HN|]. split; [exact Hple|]. split; [reflexivity|].
       eexists. split; [|reflexivity]. right. left. split; [exact Hfull|]. exists s0. split; [|reflexivity].
       apply andb_prop in Eq. destruct Eq as [Eq _]. apply all_equal_spec; assumption.
     + destruct (scp_loop eb (Z.to_nat (Ncount n)) 0 n combs memo1 0) as [[s' memo2]|e] eqn:Es; [|discriminate].
@@ -373,7 +374,7 @@ Proof.
         - apply not_true_is_false in Hpl. rewrite Hpl. cbn. lia. }
       destruct (scp_loop_spec n combs Hn (Z.to_nat (Ncount n)) 0%nat memo1 0 (s', memo2) Hval1 Hrange Es)
         as (wsA & HA & Hsum & Hval2). cbn [fst snd] in Hsum, Hval2.
-      split; [reflexivity|]. split; [reflexivity|]. split; [exact Hval2|]. split; [exact HN|]. split; [exact Hple|]. split; [apply inds_nonneg; exact Hn|].
+      split; [reflexivity|]. split; [reflexivity|]. split; [exact Hval2|]. split; [exact HN|]. split; [exact Hple|]. split; [reflexivity|].
       eexists. split; [|reflexivity]. right. right. split; [exact Hfull|]. exists wsA. split; [exact HA | lia].
 Qed.
 
@@ -526,7 +527,8 @@ Theorem comps_count n memo0 vs cntv sh memoF cs0 : 0 <= n -> valid memo0 ->
   NoDup cs0 /\ Z.of_nat (length cs0) = cntv /\ valid memoF.
 Proof.
   intros Hn Hval Hc Hl.
-  destruct (count_solutions_spec n memo0 vs cntv sh memoF Hn Hval Hc) as (Hcross & Hcombs & HvalF & HN & Hple & Hinds & count1 & Hok & ->).
+  destruct (count_solutions_spec n memo0 vs cntv sh memoF Hn Hval Hc) as (Hcross & Hcombs & HvalF & HN & Hple & Einds & count1 & Hok & ->).
+  assert (Hinds : Forall (fun x => 0 <= x) (sh_inds sh)) by (rewrite Einds; apply inds_nonneg; exact Hn).
   assert (Hcn : Forall (fun x => 0 <= x) (sh_combs sh)).
   { rewrite Hcombs. apply Forall_forall. intros x Hx. apply in_map_iff in Hx. destruct Hx as [? [E _]]. lia. }
   destruct (components_spec sh n memoF cs0 Hn HvalF Hcross HN Hcn Hinds Hl) as [Hnd Hlen].
@@ -656,6 +658,34 @@ Proof.
   destruct (G (seq 0 (Z.to_nat (Ncount n)))) as [r Hr].
   { intros pi Hpi. apply in_seq in Hpi. lia. }
   rewrite Hr. cbn [rbind]. eexists. reflexivity.
+Qed.
+
+(** ** the count is positive when every instance allows a source combination *)
+Lemma prodZl_pos' l : (forall x, In x l -> 0 < x) -> 0 < prodZl l.
+Proof.
+  intros H. rewrite prodZl_fold_right. induction l as [|x t IH]; cbn [fold_right]; [lia|].
+  pose proof (H x (or_introl eq_refl)). pose proof (IH (fun y Hy => H y (or_intror Hy))). nia.
+Qed.
+
+Lemma count1_pos n combs count1 : 0 <= n -> length combs = qn -> (0 < qn)%nat -> (forall x, In x combs -> 0 < x) -> 0 < Ncount n ->
+  count1_ok n combs count1 -> 0 < count1.
+Proof.
+  intros Hn Hlc Hq Hpos HN [[_ E] | [[_ (s0 & Hs0 & E)] | [_ (wsA & HA & E)]]]; rewrite E.
+  - pose proof (prodZl_pos' combs Hpos). nia.
+  - destruct combs as [|x t] eqn:Ec; [cbn in Hlc; lia|].
+    + assert (0 < s0) by (rewrite <- (Hs0 x (or_introl eq_refl)); apply Hpos; left; reflexivity).
+      pose proof (Z.pow_pos_nonneg s0 n ltac:(lia) Hn). nia.
+  - assert (Hlen : length wsA = Z.to_nat (Ncount n)) by (apply Forall2_length' in HA; rewrite seq_length in HA; lia).
+    assert (Hterm : forall w, In w wsA -> 0 < wordF combs w).
+    { intros w Hw. destruct (Forall2_seq_In _ 0 _ wsA w HA Hw) as [k [_ [Hbw _]]].
+      unfold wordF. apply prodZl_pos'. intros x Hx. apply in_map_iff in Hx. destruct Hx as [p [E' Hp']]. subst x.
+      pose proof (bounded_in_range n w Hbw) as Hr. rewrite Forall_forall in Hr. specialize (Hr p Hp').
+      apply Hpos. apply nth_In. rewrite Hlc. rewrite qz_nat in Hr. lia. }
+    destruct wsA as [|w0 rest]; [cbn in Hlen; lia|]. unfold zsuml. cbn [map fold_right].
+    assert (G : forall l, (forall w, In w l -> 0 < wordF combs w) -> 0 <= fold_right Z.add 0 (map (wordF combs) l)).
+    { induction l as [|y t IH]; intros Hl; cbn [map fold_right]; [lia|].
+      pose proof (Hl y (or_introl eq_refl)). pose proof (IH (fun z Hz => Hl z (or_intror Hz))). lia. }
+    pose proof (Hterm w0 (or_introl eq_refl)). pose proof (G rest (fun z Hz => Hterm z (or_intror Hz))). lia.
 Qed.
 
 End KC.
